@@ -82,6 +82,19 @@ type c11RowStream struct {
 
 func (s *c11RowStream) Send(r *gripql.QueryResult) error { s.rows = append(s.rows, r); return nil }
 
+// c11SlowStream: a client that takes its time with every row
+type c11SlowStream struct {
+	c11Stream
+	rows  []*gripql.QueryResult
+	pause time.Duration
+}
+
+func (s *c11SlowStream) Send(r *gripql.QueryResult) error {
+	time.Sleep(s.pause)
+	s.rows = append(s.rows, r)
+	return nil
+}
+
 type c11JobStream struct {
 	c11Stream
 	jobs []*gripql.QueryJob
@@ -599,6 +612,68 @@ func (c *c11Env) exec(op map[string]interface{}) (map[string]interface{}, map[st
 			return op, map[string]interface{}{"lost": lost, "why": why}
 		}
 		return op, map[string]interface{}{"lost": 0}
+
+	case "bigview":
+		// a job whose rows are LARGE (n vertices carrying a property of `kb` KiB each: a result file of
+		// tens of MiB, beyond the 32 MiB scan buffer of FSResults.Stream) read back by a SLOW client: every
+		// row must come back as it was stored (seed C11-l: rows handed to the decoders as slices of the
+		// scan buffer are overwritten when the scanner refills it).  The rows never travel over the line
+		// protocol: the harness compares them with what it stored and reports counts only.
+		n, kb := 80, 512
+		if f, ok := op["n"].(float64); ok {
+			n = int(f)
+		} else if i, ok := op["n"].(int); ok {
+			n = i
+		}
+		if f, ok := op["kb"].(float64); ok {
+			kb = int(f)
+		} else if i, ok := op["kb"].(int); ok {
+			kb = i
+		}
+		graph := c.graphName(op)
+		want := map[string]string{}
+		verts := []interface{}{}
+		for i := 0; i < n; i++ {
+			id := fmt.Sprintf("big%04d", i)
+			p := strings.Repeat(fmt.Sprintf("%04d|", i), kb*1024/5)
+			want[id] = p
+			verts = append(verts, map[string]interface{}{"gid": id, "label": "Big", "data": map[string]interface{}{"p": p}})
+		}
+		if err := c.eng.LoadGraph(graph, verts, nil); err != nil {
+			return op, map[string]interface{}{"bad": "bigview load: " + err.Error()}
+		}
+		job, serr := c.srv.Submit(context.Background(), &gripql.GraphQuery{Graph: graph,
+			Query: []*gripql.GraphStatement{{Statement: &gripql.GraphStatement_V{}}}})
+		if serr != nil {
+			return op, map[string]interface{}{"err": "compile"}
+		}
+		if _, done := c.waitComplete(graph, job.Id); !done {
+			return op, map[string]interface{}{"timeout": "complete"}
+		}
+		slow := &c11SlowStream{pause: 15 * time.Millisecond}
+		if !c11Timeout(4*c11Deadline, func() { c.srv.ViewJob(&gripql.QueryJob{Graph: graph, Id: job.Id}, slow) }) {
+			return op, map[string]interface{}{"timeout": "view"}
+		}
+		bad, seen := 0, map[string]int{}
+		for _, r := range slow.rows {
+			v := r.GetVertex()
+			if v == nil {
+				bad++
+				continue
+			}
+			seen[v.Gid]++
+			got, _ := v.Data.AsMap()["p"].(string)
+			if w, ok := want[v.Gid]; !ok || got != w {
+				bad++
+			}
+		}
+		for id := range want {
+			if seen[id] != 1 {
+				bad++
+			}
+		}
+		c.srv.DeleteJob(context.Background(), &gripql.QueryJob{Graph: graph, Id: job.Id})
+		return op, map[string]interface{}{"n": len(slow.rows), "differ": bad}
 
 	case "restart":
 		if err := c.newServer(); err != nil {
@@ -1168,6 +1243,9 @@ func (g *c11Gen) caseCrashCopy() {
 	g.do(map[string]interface{}{"op": "crashcopy", "graph": "A", "q": c11Ifaces([]c11Stmt{{"v": ids}}), "rounds": rounds})
 	g.do(map[string]interface{}{"op": "crashcopy", "graph": "A", "q": c11Ifaces([]c11Stmt{{"v": sl()}, {"out": sl()}}), "rounds": rounds})
 	g.r.Count("crashcopy")
+	// large rows read back by a slow client (80 rows of 512 KiB: a 40 MiB result file)
+	g.do(map[string]interface{}{"op": "bigview", "graph": "BIG", "n": 80, "kb": 512})
+	g.r.Count("bigview")
 }
 
 func (g *c11Gen) caseSearchMaps() {
